@@ -23,6 +23,8 @@ def main(prop, mk):
             res["error"] = "cannot find run command in demo"; return res
         rx, pkg = m.group(1), m.group(2)
         race = "-race " if "-race" in m.group(0) else ""
+        if "VerifHook" in demo or "-tags verif" in demo:
+            race += "-tags verif "
         rc, out = sh("git apply %s/patch.diff" % src, wt)
         res["applies"] = rc == 0
         if rc: res["error"] = out[-500:]; return res
